@@ -5,5 +5,10 @@ ENGINES = [
 NOTES = ("Static analysis only: every check parses /repo's current working tree (ast) and decides from the source; nothing under /repo is imported or executed. "
          "exit 0 = holds, exit 1 + VIOLATION line = a rule instance is positively violated, exit 2 + ANALYSIS-INCOMPLETE = the analysis could not decide (anchor vanished / idiom outside catalogue). "
          "Genuine defects found on the pinned tree were repaired by 'fix:' commits in /repo and are recorded in known_findings.json.")
-CLAIMED = {}
+CLAIMED = {
+ "C03": {"technique": "abstract interpretation in a GF(2)-affine bit-vector domain (matrix equality with the RFC 1662 bit-serial definition) + constant evaluation of the table + repository-wide write census",
+         "level": "proof",
+         "text": "Seven obligations (table, step map, update/init/write census, checksum, residue, uniqueness of the trailer, compute_checksum window/step/complement) are each discharged for ALL inputs: the step functions are GF(2)-affine, so equality of the extracted 16x24 matrices with the reference is equality on all 2^24 (register, octet) pairs, and induction on length gives all byte strings and windows. Tests on whole values (reg == k, reg or INIT) are split into point and generic cases.",
+         "note": "Trusted: Python int semantics; the checker's 15-line bit-serial reference of RFC 1662; octets are 0..255; sa/bitlin.py and sa/consteval.py. Code outside the affine/statement subset gives exit 2 (undecided), never a pass."},
+}
 NOT_YET = {}
